@@ -165,7 +165,7 @@ def check_ctor(c, entries, total):
             M.violate(['C19'], 'INSTR', 'C19:constructor_capacity_wrong', {'instructions': text, 'capacity_L': capL})
 
 
-def check_create_solution(solutes, solvent, res):
+def check_create_solution(solutes, solvent, res, solv_after=None):
     import pyplate.pyplate as pp
     M.count('INSTR.create_solution')
     text = res.instructions or ''
@@ -179,6 +179,24 @@ def check_create_solution(solutes, solvent, res):
                   {'instructions': text, 'substance': bad[0], 'actual_base_units': bad[1]})
     else:
         M.note_nontrivial('C19', ('s', text))
+    if isinstance(solvent, pp.Container) and isinstance(solv_after, pp.Container):
+        # "... to <amount> of <solvent container>": the amount is what was actually drawn from that container
+        M.count('INSTR.create_solution.container_solvent')
+        drawn = {s_: solvent.contents.get(s_, 0.0) - solv_after.contents.get(s_, 0.0) for s_ in solvent.contents}
+        actual = by_base(drawn)
+        found = None
+        for m in re.finditer(re.escape(' of ' + solvent.name), text):
+            head = text[:m.start()]
+            toks = tokens(head)
+            if toks and toks[-1][3] == len(head):
+                found = toks[-1]
+        M.bucket('C19/create_solution/container_solvent/' + magnitude_bucket(actual['L']))
+        if found is None:
+            M.violate(['C19'], 'INSTR', 'C19:create_solution_solvent_container_amount_missing',
+                      {'instructions': text, 'solvent': solvent.name, 'drawn_base_units': actual})
+        elif not token_matches(found, actual, _noise(drawn).get(found[2], 0.0)):
+            M.violate(['C19'], 'INSTR', 'C19:create_solution_solvent_container_amount_wrong',
+                      {'instructions': text, 'solvent': solvent.name, 'stated': list(found[:3]), 'drawn_base_units': actual})
 
 
 def check_solution_from(source, solvent, src_after, new):
